@@ -119,7 +119,7 @@ def cmpTree (st : St) (what : String) (obs : List String) : St :=
   | some _ => st
   | none =>
     match st.cur with
-    | .na w => { addBr st ["na:" ++ w] with modelOff := some w }
+    | .na w => if w == "fuel" || w == "lexer-fuel" then noteMism st s!"{what}: model ran out of fuel" else { addBr st ["na:" ++ w] with modelOff := some w }
     | .err => if obs == ["err"] then addBr st [what ++ "-err"] else noteMism st s!"{what}: model err observed {obs.take 12}"
     | .ok e =>
       let d := dump e
@@ -181,9 +181,10 @@ def judge (_id : String) (lines : Array String) : Verdict := Id.run do
         match before, st.cur with
         | .ok a, .ok b => if dump a != dump b then st := addBr st ["json-changes-tree"] else st := addBr st ["json-identity"]
         | _, _ => pure ()
-    | ["script", _] =>
+    | ["script", src] =>
       let some ev := treeEv "script" obs | return .badop l
-      st := addBr { st with evs := st.evs.push ev, modelOff := some "script" } ["script"]
+      let some ss := unesc src | return .badop l
+      st := addBr { st with evs := (st.evs.push (.source ss)).push ev, modelOff := some "script" } ["script"]
     | ["sfmt"] =>
       match obs with
       | ["panic"] => st := { st with evs := st.evs.push (.panic "sfmt") }
